@@ -376,8 +376,10 @@ class DC:
             if l0 < 0 or not (0 <= l1 <= 31 and 0 <= l2 <= 31) or (l0, l1, l2) > cur:
                 return 0x80070057, b"", {"kind": "error"}
             pl0, p1, p2 = l0, l1, l2
-        ks = self.keyset(rk, sd, pl0)
         kind = force[0] if force else self.reply_kind
+        if kind == "err":
+            return 0x80070005, b"", {"kind": "error"}
+        ks = self.keyset(rk, sd, pl0)
         if force and force[1] is not None and (l0, l1, l2) != (-1, -1, -1):
             if tuple(force[1]) < (p1, p2) or (pl0 == cur[0] and tuple(force[1]) > (cur[1], cur[2])):
                 raise RuntimeError(f"MACHINERY: forced reply position {force[1]} not conforming for request {(p1, p2)}")
